@@ -1460,8 +1460,9 @@ def rule_a12(ctx):
                 if e.get("k") == "call" and e.get("fn") in ("nni_aio_finish", "nni_aio_finish_error", "nni_aio_finish_sync", "nni_aio_finish_msg") \
                         and e["args"] and any(is_f(m) for m in walk(f.expand(e["args"][0]))):
                     clears.add((t.b, t.i))
-            seen = f.reach((f.entry, 0), blocked=lambda b, i, e_: (b, i) in clears,
-                           edge_ok=lambda b, k: not (b in nz and k == 1 - nz[b]))
+            # (paths that contradict a constant-only status local -- rv = NNG_EBUSY; ... if (rv != 0) return -- are not followed)
+            seen = G.reach_flags(f, (f.entry, 0), blocked=lambda b, i, e_: (b, i) in clears,
+                                 edge_ok=lambda b, k: not (b in nz and k == 1 - nz[b]))
             if (s_.b, s_.i) in seen:
                 path = f.find_path((f.entry, 0), lambda b, i, t=s_: (b, i) == (t.b, t.i), blocked=lambda b, i, e_: (b, i) in clears,
                                    edge_ok=lambda b, k: not (b in nz and k == 1 - nz[b]))
